@@ -862,7 +862,7 @@ theorem ctlRefs_emptyNode (tag : Str) (h : controlTags.contains tag = false) : c
 /-- the mixed channel builds an element with the tag it was given -/
 theorem mixedChannel_tag {refs : List (Str × Str)} {tag s : Str} {n : Node} (h : Chan.mixedChannel refs tag s = .ok n) :
     ∃ a ks, n = .elem tag a ks := by
-  unfold Chan.mixedChannel at h
+  unfold Chan.mixedChannel Chan.mixedChannelWith at h
   split at h
   · split at h
     · simp at h
